@@ -166,6 +166,7 @@ type FnCtx struct {
 	inputSyms   []string
 	reqStart, reqEnd int          // assertions [reqStart, reqEnd) are the function's preconditions
 	spawned     []map[string]bool // write sets of goroutines started without a contract (havoc'd at spawn and at every Wait)
+	beforeHits  map[int]bool      // before-clauses (by index) that matched at least one call site
 }
 
 func newFnCtx(e *Engine, fn *ssa.Function, spec *FuncSpec) *FnCtx {
